@@ -8,6 +8,23 @@ fn vfile(s: &str) -> v::VFile {
     (num(p[0]), num(p[1]), (hex(p[2]), num(p[3])), (hex(p[4]), num(p[5])))
 }
 
+fn join(v: &[u64]) -> String {
+    v.iter().map(|x| x.to_string()).collect::<Vec<_>>().join(",")
+}
+
+/// tokens: `@<level>` starts a level, other tokens are files of the current level
+fn levels(toks: &[&str]) -> Vec<(usize, Vec<v::VFile>)> {
+    let mut out: Vec<(usize, Vec<v::VFile>)> = vec![];
+    for t in toks {
+        if let Some(l) = t.strip_prefix('@') {
+            out.push((num(l) as usize, vec![]));
+        } else {
+            out.last_mut().expect("level first").1.push(vfile(t));
+        }
+    }
+    out
+}
+
 fn opts() -> raindb::DbOptions {
     v::options_with(std::sync::Arc::new(raindb::fs::InMemoryFileSystem::new()), 4096)
 }
@@ -54,6 +71,53 @@ fn main() {
             let files: Vec<v::VFile> = a[4..].iter().map(|f| vfile(f)).collect();
             let r = v::overlapping_inputs_full(opts(), level, &files, b, e);
             println!("files={}", r.iter().map(|x| x.to_string()).collect::<Vec<_>>().join(","));
+        }
+        // add_boundary_inputs chosen(comma idx | -) files...
+        "add_boundary_inputs" => {
+            let chosen: Vec<usize> = if a[1] == "-" { vec![] } else { a[1].split(',').map(|x| num(x) as usize).collect() };
+            let files: Vec<v::VFile> = a[2..].iter().map(|f| vfile(f)).collect();
+            let r = v::add_boundary_inputs(&files, &chosen);
+            println!("files={}", join(&r));
+        }
+        // some_file_overlaps disjoint(0|1) smallest|none largest|none files...
+        "some_file_overlaps" => {
+            let sm = if a[2] == "none" { None } else { Some(hex(a[2])) };
+            let lg = if a[3] == "none" { None } else { Some(hex(a[3])) };
+            let files: Vec<v::VFile> = a[4..].iter().map(|f| vfile(f)).collect();
+            println!("overlaps={}", v::some_file_overlaps_range(a[1] == "1", &files, sm, lg));
+        }
+        // pick_level maxfilesize smallest largest @level files... @level files...
+        "pick_level" => {
+            let mut o = opts();
+            o.max_file_size = num(a[1]);
+            let levels = levels(&a[4..]);
+            println!("level={}", v::pick_level_for_memtable_output(o, &levels, &hex(a[2]), &hex(a[3])));
+        }
+        // base_level compaction_level key,key,... @level files...
+        "base_level" => {
+            let keys: Vec<(Vec<u8>, u64)> = a[2].split(',').map(|k| key(k)).collect();
+            let levels = levels(&a[3..]);
+            let r = v::is_base_level_for_keys(opts(), num(a[1]) as usize, &levels, &keys);
+            println!("base={}", r.iter().map(|b| if *b { "1" } else { "0" }).collect::<Vec<_>>().join(","));
+        }
+        // overlapping_files target @level files...
+        "overlapping_files" => {
+            let levels = levels(&a[2..]);
+            let r = v::get_overlapping_files(opts(), &levels, &key(a[1]));
+            for (i, l) in r.iter().enumerate() {
+                println!("l{}={}", i, join(l));
+            }
+        }
+        // finalize_inputs compaction_level maxfilesize chosen @level files...
+        "finalize_inputs" => {
+            let mut o = opts();
+            o.max_file_size = num(a[2]);
+            let chosen: Vec<usize> = a[3].split(',').map(|x| num(x) as usize).collect();
+            let levels = levels(&a[4..]);
+            let r = v::finalize_compaction_inputs(o, num(a[1]) as usize, &levels, &chosen);
+            println!("inputs0={}", join(&r.0));
+            println!("inputs1={}", join(&r.1));
+            println!("grandparents={}", join(&r.2));
         }
         other => {
             eprintln!("unknown command {}", other);
